@@ -236,6 +236,8 @@ else:
             R.check('5.name', 'TAB', site, 'discovered molecule name is %s' % (
                 'passed through sanitize_molecule_string' if sanitised else 'the name stored in the file'), ok,
                     key=str(names), detail=str(names), loc=f.loc())
+    with R.guard('5.cia.name', 'TAB', CA + 'ciaacache.py', 'cia names'):
+        cia_names(ix, R)
     site = 'taurex/util/util.py::sanitize_molecule_string'
     with R.guard('5.sanitize', 'ALG', site, 'sanitize'):
         f = ix.func(site)
@@ -259,6 +261,47 @@ def discovered_pairs(f):
         if isinstance(t, ast.Tuple) and len(t.elts) == 2:
             out.append((t.elts[0], t.elts[1]))
     return out
+
+
+def cia_names(ix, R):
+    """CIACache.load_cia_from_path filters the files by a pair name taken from the file name and serves the objects
+    under obj.pairName: for PickleCIA (whose name comes from the constructor) the name it is given must be the name
+    the filter was asked about - otherwise `H2-He_2011.db` passes the filter as 'H2-He' and is stored under
+    'H2-He_2011', and the request that triggered the load fails."""
+    site = CA + 'ciaacache.py::CIACache.load_cia_from_path'
+    f = ix.func(site)
+    fl = mkflow(ix, site)
+    stmt = 'a pickled CIA is registered under the pair name the filter was tested with'
+    pcs = [e for e in calls(fl, 'PickleCIA') if e.loops]
+    if len(pcs) != 1:
+        R.error('5.cia.name', 'TAB', site, stmt, '%d PickleCIA constructions in a loop' % len(pcs), loc=f.loc())
+        return
+    e = pcs[0]
+    lp = e.loops[-1]
+    tested = []
+    for c in fl.of('continue'):
+        if c.loops and c.loops[-1] is lp:
+            for g in c.guards:
+                a = atom_of(fl, g.rf) if g.rf is not None else None
+                while a is not None and a.head == 'unop' and a.extra == 'Not':
+                    a = atom_of(fl, a.args[0])
+                if a is not None and a.head == 'cmp' and a.extra and a.extra[0] in ('In', 'NotIn') and len(a.args) == 2:
+                    tested.append(a.args[0])
+    if not tested:
+        R.error('5.cia.name', 'TAB', site, stmt, 'the filter test of the .db loop was not recognised', loc=f.loc())
+        return
+    given = e.args[1] if len(e.args) > 1 else e.kw.get('pair_name')
+    if given is None:
+        # the constructor's default: the whole stem of the file name
+        init = ix.func('taurex/cia/picklecia.py::PickleCIA.__init__')
+        given = spec(fl, 'Path(F).stem', {'F': e.args[0]}) if e.args else None
+        how = 'no name is passed, so the constructor default (the whole file stem) is used'
+    else:
+        how = 'the name passed is %s' % fmt(fl, given)[:100]
+    ok = given is not None and any(fl.tab.equal(given, t_) for t_ in tested)
+    R.check('5.cia.name', 'TAB', site, stmt, ok, key=how[:80],
+            detail='%s, while the filter is asked about %s: a file whose name carries a suffix passes the filter under one '
+                   'name and is stored under another' % (how, [fmt(fl, t_)[:100] for t_ in tested]), loc=f.loc(e.node))
 
 
 def loader_keys(ix):
@@ -404,6 +447,26 @@ self.fill_gaps(V_tl)
 self.compute_final_grid()
 '''],
              under=['True'])
+        # the temperature grid that is stored (and that interpolation and the table rows are indexed by) is sorted
+        fl0 = mkflow(ix, site)
+        tg = [e for e in fl0.of('store') if fmt(fl0, e.target) == 'self._temperature_grid' and not e.loops]
+        if len(tg) != 1:
+            R.error('6.hitran.load.sorted', 'PERM', site, 'the stored temperature grid is sorted', '%d stores' % len(tg), loc=f.loc())
+        else:
+            e_ = tg[0]
+            ok_ = e_.value.mentions(lambda a: a.head in ('call', 'mcall') and a.extra and
+                                    a.extra[0][3:].split('.')[-1] in ('sorted', 'sort', 'unique'))
+            names_ = {n_.id for n_ in ast.walk(e_.node.value) if isinstance(n_, ast.Name)}
+            for c_ in fl0.of('call'):
+                if c_.name == 'sort' and isinstance(c_.recv, ast.Name) and c_.recv.id in names_ and not c_.loops and \
+                        not c_.guards and fl0.events.index(c_) < fl0.events.index(e_):
+                    ok_ = True
+            R.check('6.hitran.load.sorted', 'PERM', site,
+                    'the temperature grid stored in the object is the sorted list of temperatures (the table rows and the '
+                    'interpolation brackets are in ascending temperature order)', ok_,
+                    key=unparse(e_.node)[:80], detail='%s stores the temperatures in the order they appear in the file: a later '
+                    'band that introduces a lower temperature leaves the grid unsorted while the rows are sorted' % unparse(e_.node)[:80],
+                    loc=f.loc(e_.node))
         # every block read from the file is handed to its range object together with its temperature, and the range's
         # wavenumbers are set (whatever helper reads the block)
         fl = mkflow(ix, site)
